@@ -466,6 +466,113 @@ def rule_chunk_padding(col, facts):
 
 
 # ---------------------------------------------------------------------------------------------
+def rule_mixed_base_scaling(col, facts):
+    """UNIT-scale: for hex-float style formats the digit count after the point is converted from mantissa
+    digits to exponent-base units: digits * log2(mantissa_radix) / log2(exponent_base).  log2(base) divides
+    log2(radix) (the code's own debug_assert), not the digit count: every division by log2(exponent_base())
+    in parse_number must have the log2(mantissa_radix()) factor inside its dividend, otherwise odd digit
+    counts are truncated before scaling (16/4: 16x off)."""
+    if not ("power-of-two" in facts.config or "radix" in facts.config):
+        return
+    R = "UNIT-scale"
+    f = facts.fn(PF + "parse::parse_number")
+    def has_log2_of(e, getter):
+        for c in expr_calls(e):
+            if last_seg(c[1]) == "log2" and any(last_seg(x[1]) == getter for x in expr_calls(c[2][0])):
+                return True
+        return False
+    n = 0
+    for i, b in enumerate(f.blocks):
+        if not f.live(i):
+            continue
+        for st in b["s"]:
+            if st[0] == "=" and st[2][0] == "bin" and st[2][1] == "Div":
+                e = rvalue_expr(f, st[2], 0)
+                if not has_log2_of(e[3], "exponent_base"):
+                    continue
+                n += 1
+                col.check(R, "parse_number:scale#%d" % n, has_log2_of(e[2], "mantissa_radix"),
+                          "`%s`: the division by log2(exponent_base) is applied before the multiplication by log2(mantissa_radix), truncating odd digit counts (16/4 formats: 1.8 parses 16x too large)" % show(e), f.loc(st[3]))
+    col.floor(R, "mixed-base exponent scalings", n, 2)
+
+
+# ---------------------------------------------------------------------------------------------
+def rule_radix_digit_clamp(col, facts):
+    """GRD-copy (generic-radix float writer): the digit generator fills a 2200-byte scratch buffer; the writers
+    copy `digit_count <= end - start` of those digits into the caller's slice *before* trimming trailing
+    zeros.  `end` must therefore be clamped to `start + K + 1` with a constant K that leaves room for the
+    non-digit characters inside the documented bound (K + MAX_NONDIGIT_LENGTH <= BUFFER_SIZE)."""
+    if "radix" not in facts.config:
+        return
+    R = "GRD-copy"
+    buf = facts.const_value("lexical_util::constants::BUFFER_SIZE")
+    n = 0
+    for name in ("write_float_scientific", "write_float_nonscientific"):
+        f = facts.fn(WF + "radix::" + name)
+        for bb, c, a, d, t in f.calls():
+            if callee_name(c) != WF + "radix::truncate_and_round":
+                continue
+            n += 1
+            e = strip_casts(op_expr(f, a[2]))
+            start = strip_casts(op_expr(f, a[1]))
+            ok = False
+            k = None
+            if e[0] == "call" and last_seg(e[1]) == "min":
+                for arm in e[2]:
+                    arm = strip_casts(arm)
+                    ks = [c_[2] for c_ in expr_consts(arm) if isinstance(c_[2], int)]
+                    lits = []
+                    def walk(x):
+                        if isinstance(x, tuple):
+                            if x and x[0] == "k" and isinstance(x[1], int):
+                                lits.append(x[1])
+                            for y in x:
+                                walk(y)
+                    walk(arm)
+                    mentions_start = show(start) in show(arm) or start == arm
+                    if ks and mentions_start:
+                        k = sum(ks) + sum(lits)
+                        ok = k + 2 <= buf - 16          # digits + point + first digit, leaving room for sign / exponent
+            col.check(R, "radix::%s:end-clamped" % name, ok,
+                      "the number of generated digits copied into the caller's buffer is `%s`, not clamped to start + a constant below BUFFER_SIZE (%s): hundreds of integer digits are copied before trailing zeros are trimmed and a buffer of the documented size panics" % (show(e), buf), f.loc(f.blocks[bb]["ts"]))
+    col.floor(R, "generic-radix truncate_and_round call sites", n, 2)
+
+
+# ---------------------------------------------------------------------------------------------
+def rule_u128_count_chunks(col, facts):
+    """SIB-count: <u128 as DigitCount>::digit_count (generic radix) mirrors algorithm_u128: every chunk split off
+    with u128_divrem contributes exactly `u64_step(radix)` digits and the last quotient contributes the digits
+    counted by the naive loop.  The count positions the unchecked writes, so a literal contribution (`+= 1`)
+    is an under- or over-count for some radix."""
+    if facts.config.startswith("compact") or "radix" not in facts.config:
+        return
+    R = "SIB-count"
+    f = facts.fn("<u128 as lexical_write_integer::digit_count::DigitCount>::digit_count")
+    counter = None
+    for l, ds in f.defs().items():
+        for bb, j, rv, pr in ds:
+            if rv[0] != "call":
+                e = strip_casts(rvalue_expr(f, rv, 0))
+                if e[0] == "call" and last_seg(e[1]) == "u64_step" and len(ds) >= 3:
+                    counter = l
+    if counter is None:
+        raise AnchorMissing("u128 digit_count: no counter initialised with u64_step(radix)")
+    n = 0
+    for bb, j, rv, pr in f.defs()[counter]:
+        if rv[0] == "call":
+            continue
+        e = strip_casts(rvalue_expr(f, rv, 0))
+        if e[0] != "bin" or e[1] != "Add":
+            continue
+        n += 1
+        add = strip_casts(e[3]) if strip_casts(e[2]) == ("var", counter, f.names.get(counter, "_%d" % counter)) or strip_casts(e[2])[:2] == ("var", counter) else strip_casts(e[2])
+        ok = (add[0] == "call" and last_seg(add[1]) == "u64_step") or add[0] == "var"
+        col.check(R, "u128::digit_count:contribution#%d" % n, ok,
+                  "a chunk contributes `%s` digits: neither u64_step(radix) nor the naive count of the remaining value - the digit count that positions algorithm_u128's unchecked writes is wrong for some radix" % show(add), f.loc(f.blocks[bb]["ts"]))
+    col.floor(R, "contributions to the u128 digit count", n, 3)
+
+
+# ---------------------------------------------------------------------------------------------
 def rule_bigfloat_bits(col, facts):
     """TBL-limits (Bigfloat): byte_comp scales b+h by radix^|sci_exp| up to 2^1075 and multiplies by a
     64-bit significand: EXPONENT_BIAS + 64 bits at least."""
